@@ -166,6 +166,9 @@ func TestC02_Families(t *testing.T) {
 					for _, fy := range tb.validForms(y) {
 						jobs = append(jobs, job{tb.MakeLicTerm(x, fx, 0, "", 0, "", ""), tb.MakeLicTerm(y, fy, 0, "", 0, "", "")})
 						n++
+						if n%3 == 0 { // rotating subset in other letter case
+							jobs = append(jobs, job{tb.MakeLicTerm(x, fx, uint32(1+n%2), "", 0, "", ""), tb.MakeLicTerm(y, fy, uint32(1+(n/2)%2), "", 0, "", "")})
+						}
 						if n%7 == 0 { // rotating subset with exceptions
 							excs := [][2]string{{e1, e1}, {e1, e2}, {e1, ""}, {"", e2}}
 							ex := excs[(n/7)%len(excs)]
